@@ -19,12 +19,12 @@ ADV = ["adv"]
 
 CHECKS = {
     "C01": {
-        "quick": {"gen": [G("MC_C01", "MC_C01_quick.cfg")], "drive": [D("strict", 3000)]},
-        "thorough": {"gen": [G("MC_C01", "MC_C01_thorough.cfg"), G("MC_C01", "MC_C01_thorough_b.cfg")], "drive": [D("strict", 50000)]},
+        "quick": {"gen": [G("MC_C01", "MC_C01_quick.cfg")], "drive": [D("strict", 3000)], "suite": {"tests": "--test lib open_hypergraph", "ops": ["strict.compose"]}},
+        "thorough": {"gen": [G("MC_C01", "MC_C01_thorough.cfg"), G("MC_C01", "MC_C01_thorough_b.cfg")], "drive": [D("strict", 50000)], "suite": {"tests": "--test lib", "ops": ["strict.compose"], "max_nodes": 14, "max_edges": 8}},
         "require_ops": ["strict.compose"],
     },
     "C02": {
-        "quick": {"gen": [G("MC_C02", "MC_C02_quick.cfg")]},
+        "quick": {"gen": [G("MC_C02", "MC_C02_quick.cfg")], "suite": {"tests": "--test lib open_hypergraph", "ops": ["strict.tensor"], "max_nodes": 40, "max_edges": 40}},
         "thorough": {"gen": [G("MC_C02", "MC_C02_thorough.cfg"), G("MC_C02", "MC_C02_quick.cfg")]},
         "require_ops": ["strict.tensor", "lax.tensor", "law.tensor_assoc", "lax.tensor3", "hyper.coproduct"],
     },
@@ -68,7 +68,7 @@ CHECKS = {
         "require_ops": ["ic.new_ff", "ic.flatmap", "ic.map_indexes_ff", "ic.iter_ff", "ic.iter_sf", "ops.iter", "ic.flatmap_sources_ff", "ic.map_values"],
     },
     "C09": {
-        "quick": {"gen": [G("MC_Lax", "MC_C09_quick.cfg"), G("MC_Quot", "MC_Quot_quick.cfg")], "drive": [D("lax", 3000)]},
+        "quick": {"gen": [G("MC_Lax", "MC_C09_quick.cfg"), G("MC_Quot", "MC_Quot_quick.cfg")], "drive": [D("lax", 3000)], "suite": {"tests": "--test lib lax", "ops": ["lax.quotient"], "max_nodes": 12, "max_edges": 12}},
         "thorough": {"gen": [G("MC_Lax", "MC_C09_thorough.cfg"), G("MC_Lax", "MC_C09_chains.cfg"), G("MC_Quot", "MC_Quot_thorough.cfg")], "drive": [D("lax", 50000)]},
         "require_ops": ["lax.quotient", "lax.h.quotient", "lax.h.coequalizer"],
     },
@@ -84,8 +84,8 @@ CHECKS = {
                         "lax.delete_edges", "lax.map_nodes", "lax.serde_roundtrip", "lax.h.delete_nodes_witness"],
     },
     "C12": {
-        "quick": {"gen": [G("MC_C12", "MC_C12_quick.cfg")]},
-        "thorough": {"gen": [G("MC_C12", "MC_C12_thorough.cfg"), G("MC_C12", "MC_C12_thorough_b.cfg")], "drive": [D("strict", 20000)]},
+        "quick": {"gen": [G("MC_C12", "MC_C12_quick.cfg"), G("MC_C12", "MC_C12_wide.cfg")], "drive": [D("strict", 3000)]},
+        "thorough": {"gen": [G("MC_C12", "MC_C12_thorough.cfg"), G("MC_C12", "MC_C12_thorough_b.cfg"), G("MC_C12", "MC_C12_wide.cfg")], "drive": [D("strict", 50000)]},
         "require_ops": ["functor.map_arrow", "laxf.dyn_map_arrow", "functor.laws"],
     },
     "C13": {
